@@ -401,6 +401,47 @@ def rule_l4(chk: Check, ix: Index):
         sum(1 for x in ast.walk(fors[0]) if isinstance(x, ast.Yield) and "Token.DEDENT" in norm_stmt(x)) == 1
     chk.require(ok, "L4-block-structure", "next_end_tokens", ne.where,
                 "at end of input: at most one implicit NEWLINE, one DEDENT per open level, then exactly one ENDMARKER, last")
+    # a line that consists of indentation only and has no line end (the unterminated last line of the input) produces no token
+    from ..pyflow import stmt_paths
+    import types as _types
+    chk.count("L4-block-structure")
+    tail = [st for st in ns.node.body if not isinstance(st, ast.While)]
+    why = ""
+    try:
+        seen_case = False
+        for pth in stmt_paths(tail, opaque_loops=True):
+            conds = {x[1]: x[2] for x in pth if x[0] == "cond"}
+            if conds.get("state.pos == state.max") is True or conds.get("state.pos >= state.max") is True:
+                seen_case = True
+                if any(x[0] == "do" and "yield" in x[1] for x in pth) or pth[-1][1] != "return" or pth[-1][2] != "False":
+                    why = "a token is emitted (or the scan goes on) for it"
+        if not seen_case:
+            why = "the case `state.pos == state.max` is not told apart from a blank or comment line"
+    except AnalysisError as e:
+        why = f"not analysable: {e}"
+    chk.require(not why, "L4-block-structure", "next_statement:bare-indentation-at-eof", ns.where,
+                f"an unterminated last line holding only blanks must end the scan without a token: {why} (a zero-width NL there is "
+                f"followed by an implicit NEWLINE for a logical line with no token)")
+    # the implicit NEWLINE at end of input: exactly when the last line has no line end and is not a comment-only line
+    chk.count("L4-block-structure")
+    conds = [n for n in ne.node.body if isinstance(n, ast.If) and any(isinstance(x, ast.Yield) and "Token.NEWLINE" in norm_stmt(x) for x in ast.walk(n))]
+    bad = []
+    if len(conds) != 1:
+        bad.append("no single condition guards the implicit NEWLINE")
+    else:
+        for last_line, want in (("x = 1", True), ("x = 1\n", False), ("x = 1\r\n", False), ("# c", False), ("   # c", False),
+                                ("\t# c", False), ("x = 1  # c", True), ("", False), ("    y", True), ("#", False)):
+            st = _types.SimpleNamespace(last_line=last_line, lnum=3)
+            try:
+                got = bool(constfold.eval_local_value(ne.node, conds[0].test, {"state": st}, data_attrs=("last_line", "lnum")))
+            except constfold.PureEvalError as e:
+                bad.append(f"not evaluable: {e}")
+                break
+            if got != want:
+                bad.append((last_line, got))
+    chk.require(not bad, "L4-block-structure", "next_end_tokens:implicit-newline", ne.where,
+                f"the implicit NEWLINE must be added exactly when the input's last line lacks a line end and is not a (possibly indented) "
+                f"comment-only line; differs on {bad[:3]}")
     tk = ix.get("_tokenize")
     chk.count("L4-block-structure")
     last = tk.node.body[-1]
